@@ -18,6 +18,7 @@ levels), and `union`'s result is `Valid` again by C08.
 Kept in its own module because it imports the property files of C08 and C09.
 -/
 import AutomataVerif.Props.C11
+import AutomataVerif.Model.RxCompare
 import AutomataVerif.Props.C09
 import AutomataVerif.Props.C08
 
@@ -53,19 +54,13 @@ theorem compile_Valid {s : List Char} {ts : List (Tok Char)} {e : Rx Char} (hr :
 
 /-! ## the library's operations as the parameters of the helpers' model -/
 
-/-- `nfa_a == nfa_b` as the Boolean the helpers return: the model `eqOp` of the expression `==`
-(C09; `p₁`, `p₂` = the union–find's choices of representatives on the direct / reflected call).
-`eqOp` answers `none` when its fuel runs out; `C11_comparisons_calls` shows that this never
-happens on the calls the helpers make, so the default is never used. -/
-def eqLib (p₁ p₂ : C09.Pick Nat Nat) (A B : NFA Nat Char) : Bool := (eqOp p₁ p₂ A B).getD false
+/-! `eqLib p₁ p₂` (= `NFA.eqOp`, the model of `nfa_a == nfa_b`, C09) and `uniLib` (= `NFA.union`,
+C08) are defined in the core-only `Model/RxCompare.lean`, so that the driver executable's
+`RX_CMP` command runs exactly the terms `isequal (eqLib …)`, `issubset (eqLib …) uniLib`,
+`issuperset (eqLib …) uniLib` of `C11_comparisons_lib` below (with `drvPick`, which is
+`C09.exPick`). -/
 
-/-- `nfa_a.union(nfa_b)`: the model `NFA.union` (C08).  `NFA.union` is `Res`-valued (table
-look-ups, constructor validation); `C11_comparisons_calls` shows that it returns `.ok` on the
-calls the helpers make, so the fallback is never used. -/
-def uniLib (A B : NFA Nat Char) : NFA Nat Char :=
-  match NFA.union A B with
-  | .ok R => R
-  | .error _ => A
+example : drvPick = C09.exPick := rfl
 
 theorem sameSyms_self (xs : List Char) : sameSyms xs xs = true := by
   simp [sameSyms]
